@@ -7,7 +7,7 @@
    [cp_eq p] = constant-product pool (use_oracle = false) with equal positive weights and non-negative reserves. *)
 From Coq Require Import ZArith List Bool.
 From Elys Require Import Base.Res Base.Zdec Models.AmmSwap Proofs.AmmSwapProofs Proofs.AmmSwapProofs2.
-From Elys Require Import Proofs.PowBounds Proofs.PowSeries.
+From Elys Require Import Proofs.PowBounds Proofs.PowSeries Models.WeightFee Proofs.WeightFeeProofs.
 Import ListNotations.
 Open Scope Z_scope.
 
@@ -304,6 +304,109 @@ Theorem C03_bonus_from_treasury_capped : forall use_orc base bonus treasury b,
   0 <= b /\ (0 < b -> b <= treasury /\ use_orc = true /\ 0 < bonus /\ b * PREC <= base * bonus).
 Proof. exact bonus_capped. Qed.
 Print Assumptions C03_bonus_from_treasury_capped.
+
+(* ---------- oracle pools with the WEIGHT-BREAKING FEE COMPUTED BY THE MODEL (Models/WeightFee.v) ----------
+   The fee is no longer a parameter resolved from the implementation: [oracle_swap_out_wf] / [oracle_swap_in_wf] are the whole
+   of Pool.SwapOutAmtGivenIn / SwapInAmtGivenOut for oracle pools incl. GetOraclePoolNormalizedWeights, WeightDistanceFromTarget
+   before and after the swap, GetWeightBreakingFee (Pow of the weight ratio, multiplier, 0.99 cap), the perpetual factor, the
+   portion and the threshold. [assets] = accounted assets of the pool (any number), kin / kout = positions of the two swapped
+   assets, [prm] = (multiplier, exponent, portion, threshold). [exp_int_or_half e]: e >= 0 with fractional part 0 or 1/2 (the
+   chain's 2.5, C03_wbf_default_exponent): Pow is proved non-negative there (LegacyDec.Power and the Newton square root). *)
+
+(* (a) GetWeightBreakingFee returns a value in [0, 0.99] (0.99 < 1): the hypothesis "wbf in [0,1]" of the theorems above is
+   discharged for the modelled formula. Params.Validate enforces multiplier >= 0. *)
+Theorem C03_wbf_in_range : forall prm fi fo ti to ii io dd f,
+  0 <= wp_mult prm -> exp_int_or_half (wp_exp prm) ->
+  get_wbf prm fi fo ti to ii io dd = Ok f -> 0 <= f <= WBF_CAP /\ WBF_CAP < PREC.
+Proof. exact get_wbf_range_exp. Qed.
+Print Assumptions C03_wbf_in_range.
+
+(* PARTIAL for the other exponents. Full statement (NOT proved): the same for every exponent >= 0; it needs Pow >= 0 on the
+   ln/exp and Maclaurin paths. Proved: for ANY exponent on which Pow never returns a negative value. *)
+Theorem C03_wbf_in_range_partial : forall prm fi fo ti to ii io dd f,
+  0 <= wp_mult prm -> pow_nonneg (wp_exp prm) ->
+  get_wbf prm fi fo ti to ii io dd = Ok f -> 0 <= f <= WBF_CAP.
+Proof. exact get_wbf_range. Qed.
+Print Assumptions C03_wbf_in_range_partial.
+
+Theorem C03_pow_nonneg_int_or_half_exponent : forall e y pw,
+  0 <= e -> (Z.rem e PREC = 0 \/ Z.rem e PREC = HALF) -> pow y e = Ok pw -> 0 <= pw.
+Proof. intros e y pw H0 H1. exact (pow_nonneg_int_or_half e H0 H1 y pw). Qed.
+Print Assumptions C03_pow_nonneg_int_or_half_exponent.
+
+Example C03_wbf_default_exponent : exp_int_or_half 2500000000000000000.
+Proof. exact default_exponent_ok. Qed.
+
+(* the FULL oracle-pool statement, exact-in, fee computed by the model (no fee parameter): for all pool states, prices, ratios,
+   params with multiplier, portion >= 0, perpetual factor in [0,1]: value out <= value in + half of 10^-18 out-token, and the
+   bonus rate returned is at most 0.99 * portion *)
+Theorem C03_oracle_value_out_le_in_with_fee : forall p assets kin kout a ratio perp fee prm out s oo bonus,
+  0 <= wp_mult prm -> exp_int_or_half (wp_exp prm) -> 0 <= wp_portion prm -> 0 <= perp <= PREC ->
+  0 <= a -> 0 <= ratio -> 0 <= fee -> 0 <= price_in p -> 0 <= price_out p ->
+  oracle_swap_out_wf p assets kin kout a ratio perp fee prm = Ok (out, s, oo, bonus) ->
+  0 <= s /\ out * price_out p * (PREC * PREC) <= a * price_in p * (PREC * PREC) + HALF * price_out p /\
+  bonus <= dmul WBF_CAP (wp_portion prm).
+Proof. exact oracle_swap_out_wf_value_exp. Qed.
+Print Assumptions C03_oracle_value_out_le_in_with_fee.
+
+Theorem C03_oracle_value_in_ge_out_with_fee : forall p assets kin kout o ratio perp fee prm inn s oi bonus,
+  0 <= wp_mult prm -> exp_int_or_half (wp_exp prm) -> 0 <= wp_portion prm -> 0 <= perp <= PREC ->
+  0 <= o -> 0 <= ratio -> 0 <= fee -> 0 <= price_in p -> 0 <= price_out p ->
+  oracle_swap_in_wf p assets kin kout o ratio perp fee prm = Ok (inn, s, oi, bonus) ->
+  0 <= s /\ o * price_out p * (PREC * PREC) < inn * price_in p * (PREC * PREC) + (1 + HALF) * price_in p /\
+  bonus <= dmul WBF_CAP (wp_portion prm).
+Proof. exact oracle_swap_in_wf_value_exp. Qed.
+Print Assumptions C03_oracle_value_in_ge_out_with_fee.
+
+(* (b) direction: with d0 / d1 the weight distance before / after the swap as the code computes them, the whole function IS
+   the fee-parameterised one at some fee wbf, and
+     d1 < d0  (improving): wbf = 0, the bonus is >= 0 and positive only if d0 was above the threshold;
+     d1 >= d0 (not improving): bonus = - wbf <= 0 (the trader is charged, never rewarded);
+     a positive bonus implies d1 < d0, d0 > threshold, no fee. *)
+Theorem C03_fee_zero_when_improving : forall p assets kin kout a ratio perp fee prm out s oo bonus,
+  0 <= wp_mult prm -> exp_int_or_half (wp_exp prm) -> 0 <= wp_portion prm -> 0 <= perp <= PREC ->
+  oracle_swap_out_wf p assets kin kout a ratio perp fee prm = Ok (out, s, oo, bonus) ->
+  exists wbf d0 after fin d1,
+    oracle_swap_out p a ratio wbf fee = Ok (out, s, oo) /\
+    weight_distance assets = Ok d0 /\
+    after_swap assets 0 kin kout a after = Ok fin /\ weight_distance fin = Ok d1 /\
+    (d1 < d0 -> wbf = 0 /\ 0 <= bonus /\ (0 < bonus -> wp_thr prm < d0)) /\
+    (d0 <= d1 -> bonus = - wbf /\ bonus <= 0) /\
+    (0 < bonus -> d1 < d0 /\ wp_thr prm < d0 /\ wbf = 0).
+Proof. exact oracle_swap_out_wf_direction_exp. Qed.
+Print Assumptions C03_fee_zero_when_improving.
+
+(* ... and POSITIVE when the distance grows (dd > 0) and the in-asset ends over-weight relative to the out-asset, i.e. the
+   ratio x = finalWeightIn*targetWeightOut/finalWeightOut/targetWeightIn the code hands to Pow is >= 1: the fee is at least
+   min(0.99, multiplier). (That a growing distance of a two-asset pool implies x >= 1 is real-number reasoning about the
+   normalized weights; it is not proved here - the correspondence run reports the fee of every generated swap.) *)
+Theorem C03_fee_positive_when_worsening : forall prm fi fo ti to ii io dd f x1 x2 x3,
+  0 < wp_mult prm -> 0 <= wp_exp prm ->
+  (Z.rem (wp_exp prm) PREC = 0 \/ Z.rem (wp_exp prm) PREC = HALF \/ x3 < TWO) ->
+  0 < dd -> fo <> 0 -> fi <> 0 -> to <> 0 -> ti <> 0 ->
+  x1 = dmul fi to -> x2 = dquo x1 fo -> x3 = dquo x2 ti -> PREC <= x3 ->
+  get_wbf prm fi fo ti to ii io dd = Ok f ->
+  Z.min WBF_CAP (wp_mult prm) <= f.
+Proof. exact get_wbf_worsening_lower. Qed.
+Print Assumptions C03_fee_positive_when_worsening.
+
+(* (c) tie with C03_bonus_from_treasury_capped: for a swap whose bonus rate the model computed, what UpdatePoolForSwap sends
+   from the rebalance treasury is at most the treasury balance and at most base * 0.99 * portion *)
+Theorem C03_bonus_with_fee_capped : forall p assets kin kout a ratio perp fee prm out s oo bonus base treasury b,
+  0 <= wp_mult prm -> exp_int_or_half (wp_exp prm) -> 0 <= wp_portion prm -> 0 <= perp <= PREC -> 0 <= base ->
+  oracle_swap_out_wf p assets kin kout a ratio perp fee prm = Ok (out, s, oo, bonus) ->
+  bonus_paid true base bonus treasury = Ok b ->
+  0 <= b /\ (0 < b -> b <= treasury /\ 0 < bonus /\ b * PREC <= base * dmul WBF_CAP (wp_portion prm)).
+Proof. exact swap_out_bonus_from_treasury. Qed.
+Print Assumptions C03_bonus_with_fee_capped.
+
+(* non-vacuity of the with-fee theorems: a generated case replayed on the real SwapOutAmtGivenIn (worsening swap, fee 1.43 %) *)
+Example C03_with_fee_nonvacuous :
+  let p := mkPool 7321 880 1 1 0 0 true 7321 880 100000000000000 831857364403457 in
+  let prm := mkWP 500000000000000 2500000000000000000 500000000000000000 300000000000000000 in
+  exists s oo, oracle_swap_out_wf p (pool_assets p true) 0 1 4880 (100 * PREC) PREC 0 prm = Ok (490, s, oo, -14349589350757062)
+    /\ exp_int_or_half (wp_exp prm) /\ 0 <= wp_mult prm /\ 0 <= wp_portion prm.
+Proof. exact with_fee_nonvacuous. Qed.
 
 (* non-vacuity: the fixture's pool sizes, a successful swap, hypotheses satisfied, bound tight (out = floor(exact)) *)
 Example C03_nonvacuous :
